@@ -103,8 +103,48 @@ theorem eqNodup_removeAll (h : Heap) (v : Nat) (hnd : EqNodup h) : EqNodup (remo
     · exact (hnd x).erase _
     · exact hnd x
 
+theorem release_inv (h : Heap) (v : Nat) (hi : Inv kindOf h) (hnd : EqNodup h) : Inv kindOf (release h v).1 := by
+  unfold release
+  split
+  · refine ⟨hi.listed, hi.nodup, hi.typed, ?_⟩
+    intro a b hab
+    simp only at hab ⊢
+    by_cases hav : a = v
+    · subst hav; simp at hab
+    · simp only [hav, if_false] at hab
+      have hb : b ∈ h.equiv a := List.mem_of_mem_erase hab
+      have hbv : b ≠ v := by
+        intro he; subst he
+        exact (List.Nodup.not_mem_erase (hnd a)) hab
+      simp only [hbv, if_false]
+      exact (List.mem_erase_of_ne hav).mpr (hi.symm a b hb)
+  · exact hi
+
+theorem eqNodup_release (h : Heap) (v : Nat) (hnd : EqNodup h) : EqNodup (release h v).1 := by
+  unfold release
+  split
+  · intro x
+    simp only
+    split
+    · exact List.nodup_nil
+    · exact (hnd x).erase _
+  · exact hnd
+
+/-- after a release nobody lists the dead variable any more, and the fresh variable under its identifier lists nobody -/
+theorem release_forgets (h : Heap) (v : Nat) (hp : h.parent v = none) :
+    (release h v).2 = true ∧ (release h v).1.equiv v = [] ∧ ∀ x, (h.equiv x).Nodup → v ∉ (release h v).1.equiv x := by
+  unfold release
+  simp only [hp, if_true]
+  refine ⟨trivial, ?_, ?_⟩
+  · simp
+  · intro x hx
+    by_cases hxv : x = v
+    · simp [hxv]
+    · simp only [hxv, if_false]
+      exact List.Nodup.not_mem_erase hx
+
 def isContainerOp : Op → Bool
-  | .addEquivalence .. | .removeEquivalence .. | .removeAllEquivalences .. => false
+  | .addEquivalence .. | .removeEquivalence .. | .removeAllEquivalences .. | .release .. => false
   | _ => true
 
 theorem addChild_equiv (look : Look) (h : Heap) (c : Nat) (k : CK) (x : Nat) : (addChild look h c k x).1.equiv = h.equiv := by
@@ -155,6 +195,7 @@ theorem step_inv (look : Look) (nameOf : Nat → String) (fuel : Nat) (h : Heap)
   | addEquivalence v w => exact ⟨addEquivalence_inv h v w hi, eqNodup_add h v w hnd⟩
   | removeEquivalence v w => exact ⟨removeEquivalence_inv h v w hi hnd, eqNodup_remove h v w hnd⟩
   | removeAllEquivalences v => exact ⟨removeAllEquivalences_inv h v hi hnd, eqNodup_removeAll h v hnd⟩
+  | release v => exact ⟨release_inv h v hi hnd, eqNodup_release h v hnd⟩
 
 /-- C09: the invariant holds after every history of valid operations -/
 theorem run_inv (look : Look) (nameOf : Nat → String) (fuel : Nat) (ops : List Op) :
